@@ -146,7 +146,8 @@ def translate(
             else:
                 log.error('Error writing "%s"', outfile)
             return False
-        except KeyError:
+        # tree.flatten and the generator can throw Exception in several places
+        except Exception:  # pylint: disable=broad-except
             log.exception("Problem translating %s to SymPy", model)
             return False
     else:
@@ -261,7 +262,8 @@ def main(argv: List[str]) -> int:
         if not errors and args.model:
             for model in args.model:
                 if args.target:
-                    translate(library_ast, model, "sympy", options, args.outdir)
+                    if not translate(library_ast, model, "sympy", options, args.outdir):
+                        errors += 1
                 elif args.model:
                     try:
                         _ = flatten_class(library_ast, model)
@@ -289,12 +291,12 @@ def main(argv: List[str]) -> int:
                         if model_dir:
                             # More than one found (ambiguous)
                             log.error("More than one Modelica file found for %s", model)
-                            errors += 1
                             model_dir = None
                             break
                         model_dir = path.parent
                 if not model_dir:
                     log.error("No unique Modelica file corresponding to model %s", model)
+                    errors += 1
                 else:
                     log.info("Generating model for %s ...", model)
                     try:
